@@ -101,33 +101,33 @@ macro "np_prim" : tactic => `(tactic| first
 
 /-! ## the skippers never panic -/
 theorem np_skip_all (p : Proto) : ∀ fuel,
-    (∀ t b, NP (skip p fuel t b)) ∧ (∀ t n b, NP (skipN p fuel t n b)) ∧
-    (∀ kt vt n b, NP (skipPairs p fuel kt vt n b)) ∧ (∀ b last num, NP (skipStruct p fuel b last num)) := by
+    (∀ d t b, NP (skip p d fuel t b)) ∧ (∀ d t n b, NP (skipN p d fuel t n b)) ∧
+    (∀ d kt vt n b, NP (skipPairs p d fuel kt vt n b)) ∧ (∀ d b last num, NP (skipStruct p d fuel b last num)) := by
   intro fuel
   induction fuel with
   | zero =>
-    refine ⟨fun t b => ?_, fun t n b => ?_, fun kt vt n b => ?_, fun b last num => ?_⟩
+    refine ⟨fun d t b => ?_, fun d t n b => ?_, fun d kt vt n b => ?_, fun d b last num => ?_⟩
     · simp only [skip]; exact NP.err _
     · simp only [skipN]; exact NP.err _
     · simp only [skipPairs]; exact NP.err _
     · simp only [skipStruct]; exact NP.err _
   | succ fuel ih =>
     obtain ⟨ih1, ih2, ih3, ih4⟩ := ih
-    refine ⟨fun t b => ?_, fun t n b => ?_, fun kt vt n b => ?_, fun b last num => ?_⟩
+    refine ⟨fun d t b => ?_, fun d t n b => ?_, fun d kt vt n b => ?_, fun d b last num => ?_⟩
     · cases t <;> simp only [skip] <;>
-        repeat (first | exact ih2 _ _ _ | exact ih3 _ _ _ _ | exact ih4 _ _ _ | np_prim)
-    · cases n <;> simp only [skipN] <;> repeat (first | exact ih1 _ _ | exact ih2 _ _ _ | np_prim)
-    · cases n <;> simp only [skipPairs] <;> repeat (first | exact ih1 _ _ | exact ih3 _ _ _ _ | np_prim)
+        repeat (first | exact ih2 _ _ _ _ | exact ih3 _ _ _ _ _ | exact ih4 _ _ _ _ | np_prim)
+    · cases n <;> simp only [skipN] <;> repeat (first | exact ih1 _ _ _ | exact ih2 _ _ _ _ | np_prim)
+    · cases n <;> simp only [skipPairs] <;> repeat (first | exact ih1 _ _ _ | exact ih3 _ _ _ _ _ | np_prim)
     · rw [skipStruct_succ]
-      repeat (first | exact ih1 _ _ | exact ih4 _ _ _ | np_prim)
+      repeat (first | exact ih1 _ _ _ | exact ih4 _ _ _ _ | np_prim)
 
-theorem np_skip (p : Proto) (fuel : Nat) (t : TType) (b : Bytes) : NP (skip p fuel t b) := (np_skip_all p fuel).1 t b
-theorem np_skipN (p : Proto) (fuel : Nat) (t : TType) (n : Nat) (b : Bytes) : NP (skipN p fuel t n b) :=
-  (np_skip_all p fuel).2.1 t n b
-theorem np_skipPairs (p : Proto) (fuel : Nat) (kt vt : TType) (n : Nat) (b : Bytes) :
-    NP (skipPairs p fuel kt vt n b) := (np_skip_all p fuel).2.2.1 kt vt n b
-theorem np_skipStruct (p : Proto) (fuel : Nat) (b : Bytes) (last : Int) (num : Nat) :
-    NP (skipStruct p fuel b last num) := (np_skip_all p fuel).2.2.2 b last num
+theorem np_skip (p : Proto) (d fuel : Nat) (t : TType) (b : Bytes) : NP (skip p d fuel t b) := (np_skip_all p fuel).1 d t b
+theorem np_skipN (p : Proto) (d fuel : Nat) (t : TType) (n : Nat) (b : Bytes) : NP (skipN p d fuel t n b) :=
+  (np_skip_all p fuel).2.1 d t n b
+theorem np_skipPairs (p : Proto) (d fuel : Nat) (kt vt : TType) (n : Nat) (b : Bytes) :
+    NP (skipPairs p d fuel kt vt n b) := (np_skip_all p fuel).2.2.1 d kt vt n b
+theorem np_skipStruct (p : Proto) (d fuel : Nat) (b : Bytes) (last : Int) (num : Nat) :
+    NP (skipStruct p d fuel b last num) := (np_skip_all p fuel).2.2.2 d b last num
 
 /-! ## the decoder never panics on supported types -/
 mutual
@@ -172,17 +172,17 @@ theorem findById_mem (descs : List FieldDesc) (id : Int) (d : FieldDesc) (h : fi
   exact List.mem_of_find?_eq_some h
 
 theorem np_decode_all (p : Proto) (strict : Bool) : ∀ fuel,
-    (∀ ty b cur, Supported ty = true → NP (decode p strict fuel ty b cur)) ∧
-    (∀ et n b acc, Supported et = true → NP (decodeList p strict fuel et n b acc)) ∧
-    (∀ kt n b acc, Supported kt = true → NP (decodeSet p strict fuel kt n b acc)) ∧
-    (∀ kt vt n b acc, Supported kt = true → Supported vt = true → NP (decodeMap p strict fuel kt vt n b acc)) ∧
-    (∀ descs b vs last num seen, (∀ d ∈ descs, Supported d.ty = true) →
-      NP (decodeStruct p strict fuel descs b vs last num seen)) := by
+    (∀ d ty b cur, Supported ty = true → NP (decode p strict d fuel ty b cur)) ∧
+    (∀ d et n b acc, Supported et = true → NP (decodeList p strict d fuel et n b acc)) ∧
+    (∀ d kt n b acc, Supported kt = true → NP (decodeSet p strict d fuel kt n b acc)) ∧
+    (∀ d kt vt n b acc, Supported kt = true → Supported vt = true → NP (decodeMap p strict d fuel kt vt n b acc)) ∧
+    (∀ d descs b vs last num seen, (∀ fd ∈ descs, Supported fd.ty = true) →
+      NP (decodeStruct p strict d fuel descs b vs last num seen)) := by
   intro fuel
   induction fuel with
   | zero =>
-    refine ⟨fun ty b cur _ => ?_, fun et n b acc _ => ?_, fun kt n b acc _ => ?_, fun kt vt n b acc _ _ => ?_,
-      fun descs b vs last num seen _ => ?_⟩
+    refine ⟨fun d ty b cur _ => ?_, fun d et n b acc _ => ?_, fun d kt n b acc _ => ?_, fun d kt vt n b acc _ _ => ?_,
+      fun d descs b vs last num seen _ => ?_⟩
     · simp only [decode]; exact NP.err _
     · simp only [decodeList]; exact NP.err _
     · simp only [decodeSet]; exact NP.err _
@@ -190,8 +190,8 @@ theorem np_decode_all (p : Proto) (strict : Bool) : ∀ fuel,
     · simp only [decodeStruct]; exact NP.err _
   | succ fuel ih =>
     obtain ⟨ih1, ih2, ih3, ih4, ih5⟩ := ih
-    refine ⟨fun ty b cur hs => ?_, fun et n b acc hs => ?_, fun kt n b acc hs => ?_, fun kt vt n b acc hk hv => ?_,
-      fun descs b vs last num seen hd => ?_⟩
+    refine ⟨fun d ty b cur hs => ?_, fun d et n b acc hs => ?_, fun d kt n b acc hs => ?_,
+      fun d kt vt n b acc hk hv => ?_, fun d descs b vs last num seen hd => ?_⟩
     · cases ty with
       | bool => simp only [decode]; repeat np_prim
       | int k => cases k <;> simp [Supported, IntKind.signed] at hs <;> simp only [decode] <;> repeat np_prim
@@ -203,79 +203,81 @@ theorem np_decode_all (p : Proto) (strict : Bool) : ∀ fuel,
         · simp only [hu, if_true]; repeat np_prim
         · simp only [hu, Bool.false_eq_true, if_false]
           have hs' : Supported et = true := by simpa [Supported, hu] using hs
-          repeat (first | exact ih2 _ _ _ _ hs' | np_prim)
+          repeat (first | exact ih2 _ _ _ _ _ hs' | exact np_skipN _ _ _ _ _ _ | np_prim)
       | map kt vt =>
         simp only [Supported, Bool.and_eq_true] at hs
         simp only [decode]
-        repeat (first | exact ih3 _ _ _ _ hs.1 | exact ih4 _ _ _ _ _ hs.1 hs.2 | np_prim)
+        repeat (first
+          | exact ih3 _ _ _ _ _ hs.1 | exact ih4 _ _ _ _ _ _ hs.1 hs.2 | exact np_skipN _ _ _ _ _ _
+          | exact np_skipPairs _ _ _ _ _ _ _ | np_prim)
       | struct fs =>
         simp only [Supported] at hs
         cases cur <;> simp only [decode] <;>
-          repeat (first | exact ih5 _ _ _ _ _ _ (supported_descs fs hs) | np_prim)
+          repeat (first | exact ih5 _ _ _ _ _ _ _ (supported_descs fs hs) | np_prim)
       | ptr et =>
         simp only [Supported] at hs
-        cases cur <;> simp only [decode] <;> repeat (first | exact ih1 _ _ _ hs | np_prim)
+        cases cur <;> simp only [decode] <;> repeat (first | exact ih1 _ _ _ _ hs | np_prim)
       | named nm t' =>
         simp only [Supported] at hs
         simp only [decode]
-        exact ih1 _ _ _ hs
-    · cases n <;> simp only [decodeList] <;> repeat (first | exact ih1 _ _ _ hs | exact ih2 _ _ _ _ hs | np_prim)
-    · cases n <;> simp only [decodeSet] <;> repeat (first | exact ih1 _ _ _ hs | exact ih3 _ _ _ _ hs | np_prim)
+        exact ih1 _ _ _ _ hs
+    · cases n <;> simp only [decodeList] <;> repeat (first | exact ih1 _ _ _ _ hs | exact ih2 _ _ _ _ _ hs | np_prim)
+    · cases n <;> simp only [decodeSet] <;> repeat (first | exact ih1 _ _ _ _ hs | exact ih3 _ _ _ _ _ hs | np_prim)
     · cases n <;> simp only [decodeMap] <;>
-        repeat (first | exact ih1 _ _ _ hk | exact ih1 _ _ _ hv | exact ih4 _ _ _ _ _ hk hv | np_prim)
+        repeat (first | exact ih1 _ _ _ _ hk | exact ih1 _ _ _ _ hv | exact ih4 _ _ _ _ _ _ hk hv | np_prim)
     · rw [decodeStruct_succ]
       apply NP.bind (NP.wrapE _ (np_rField p b))
       intro a
       dsimp only
-      apply NP.ite (NP.ok _)
+      apply NP.ite (NP.ite (NP.err _) (NP.ok _))
       cases hfd : findById descs (wrap16 (if a.1.delta = true then a.1.id + last else a.1.id)) with
       | none =>
         dsimp only
-        repeat (first | exact np_skip _ _ _ _ | exact ih5 _ _ _ _ _ _ hd | np_prim)
-      | some d =>
-        have hds : Supported d.ty = true := hd d (findById_mem _ _ _ hfd)
+        repeat (first | exact np_skip _ _ _ _ _ | exact np_skipN _ _ _ _ _ _ | exact np_skipPairs _ _ _ _ _ _ _ | exact ih5 _ _ _ _ _ _ _ hd | np_prim)
+      | some fd =>
+        have hds : Supported fd.ty = true := hd fd (findById_mem _ _ _ hfd)
         dsimp only
         apply NP.ite
-        · repeat (first | exact ih5 _ _ _ _ _ _ hd | np_prim)
+        · repeat (first | exact np_skip _ _ _ _ _ | exact ih5 _ _ _ _ _ _ _ hd | np_prim)
         · apply NP.ite
-          · exact ih5 _ _ _ _ _ _ hd
+          · exact ih5 _ _ _ _ _ _ _ hd
           · apply NP.bind
             · apply NP.dont
               apply NP.ite
-              · cases baseOf d.ty <;> dsimp only <;> repeat (first | exact ih1 _ _ _ hds | np_prim)
-              · exact ih1 _ _ _ hds
-            · intro _; exact ih5 _ _ _ _ _ _ hd
+              · cases baseOf fd.ty <;> dsimp only <;> repeat (first | exact ih1 _ _ _ _ hds | np_prim)
+              · exact ih1 _ _ _ _ hds
+            · intro _; exact ih5 _ _ _ _ _ _ _ hd
 
-theorem np_decode (p : Proto) (strict : Bool) (fuel : Nat) (ty : Ty) (b : Bytes) (cur : Val)
-    (h : Supported ty = true) : NP (decode p strict fuel ty b cur) := (np_decode_all p strict fuel).1 ty b cur h
-theorem np_decodeList (p : Proto) (strict : Bool) (fuel : Nat) (et : Ty) (n : Nat) (b : Bytes) (acc : List Val)
-    (h : Supported et = true) : NP (decodeList p strict fuel et n b acc) :=
-  (np_decode_all p strict fuel).2.1 et n b acc h
-theorem np_decodeSet (p : Proto) (strict : Bool) (fuel : Nat) (kt : Ty) (n : Nat) (b : Bytes) (acc : Vals)
-    (h : Supported kt = true) : NP (decodeSet p strict fuel kt n b acc) :=
-  (np_decode_all p strict fuel).2.2.1 kt n b acc h
-theorem np_decodeMap (p : Proto) (strict : Bool) (fuel : Nat) (kt vt : Ty) (n : Nat) (b : Bytes) (acc : Vals)
-    (hk : Supported kt = true) (hv : Supported vt = true) : NP (decodeMap p strict fuel kt vt n b acc) :=
-  (np_decode_all p strict fuel).2.2.2.1 kt vt n b acc hk hv
-theorem np_decodeStruct (p : Proto) (strict : Bool) (fuel : Nat) (descs : List FieldDesc) (b : Bytes) (vs : Vals)
-    (last : Int) (num : Nat) (seen : List Int) (h : ∀ d ∈ descs, Supported d.ty = true) :
-    NP (decodeStruct p strict fuel descs b vs last num seen) :=
-  (np_decode_all p strict fuel).2.2.2.2 descs b vs last num seen h
+theorem np_decode (p : Proto) (strict : Bool) (d fuel : Nat) (ty : Ty) (b : Bytes) (cur : Val)
+    (h : Supported ty = true) : NP (decode p strict d fuel ty b cur) := (np_decode_all p strict fuel).1 d ty b cur h
+theorem np_decodeList (p : Proto) (strict : Bool) (d fuel : Nat) (et : Ty) (n : Nat) (b : Bytes) (acc : List Val)
+    (h : Supported et = true) : NP (decodeList p strict d fuel et n b acc) :=
+  (np_decode_all p strict fuel).2.1 d et n b acc h
+theorem np_decodeSet (p : Proto) (strict : Bool) (d fuel : Nat) (kt : Ty) (n : Nat) (b : Bytes) (acc : Vals)
+    (h : Supported kt = true) : NP (decodeSet p strict d fuel kt n b acc) :=
+  (np_decode_all p strict fuel).2.2.1 d kt n b acc h
+theorem np_decodeMap (p : Proto) (strict : Bool) (d fuel : Nat) (kt vt : Ty) (n : Nat) (b : Bytes) (acc : Vals)
+    (hk : Supported kt = true) (hv : Supported vt = true) : NP (decodeMap p strict d fuel kt vt n b acc) :=
+  (np_decode_all p strict fuel).2.2.2.1 d kt vt n b acc hk hv
+theorem np_decodeStruct (p : Proto) (strict : Bool) (d fuel : Nat) (descs : List FieldDesc) (b : Bytes) (vs : Vals)
+    (last : Int) (num : Nat) (seen : List Int) (h : ∀ fd ∈ descs, Supported fd.ty = true) :
+    NP (decodeStruct p strict d fuel descs b vs last num seen) :=
+  (np_decode_all p strict fuel).2.2.2.2 d descs b vs last num seen h
 
 theorem np_unmarshal (p : Proto) (strict : Bool) (ty : Ty) (b : Bytes) (h : Supported ty = true) :
     NP (unmarshal p strict ty b) := by
   unfold unmarshal
-  have := np_decode p strict (4 * b.length + 64 + depth ty) ty b (zeroOf ty) h
-  cases hd : decode p strict (4 * b.length + 64 + depth ty) ty b (zeroOf ty) with
+  have := np_decode p strict 0 (4 * b.length + 64 + depth ty) ty b (zeroOf ty) h
+  cases hd : decode p strict 0 (4 * b.length + 64 + depth ty) ty b (zeroOf ty) with
   | ok vr => dsimp only; split <;> first | exact NP.ok _ | exact NP.err _
   | err e => exact NP.err _
   | panic e => exact absurd hd (this e)
 
 /-- the restriction is needed: at an unsupported Go kind the model (like `decodeFuncOf`) panics, whatever the input -/
-theorem decode_unsupported_panics (p : Proto) (strict : Bool) (fuel : Nat) (b : Bytes) (cur : Val) :
-    decode p strict (fuel + 1) (.int .u32) b cur = .panic "unsupportedType" ∧
-    decode p strict (fuel + 1) .any b cur = .panic "unsupportedType" ∧
-    decode p strict (fuel + 1) (.arr 2 .bool) b cur = .panic "unsupportedType" := by
+theorem decode_unsupported_panics (p : Proto) (strict : Bool) (d fuel : Nat) (b : Bytes) (cur : Val) :
+    decode p strict d (fuel + 1) (.int .u32) b cur = .panic "unsupportedType" ∧
+    decode p strict d (fuel + 1) .any b cur = .panic "unsupportedType" ∧
+    decode p strict d (fuel + 1) (.arr 2 .bool) b cur = .panic "unsupportedType" := by
   refine ⟨?_, ?_, ?_⟩ <;> simp only [decode]
 
 end Enc.Lemmas.ThriftTotal
